@@ -1359,13 +1359,9 @@ func u2(w *World, r *Report) {
 	tRem, tAdd := 0, 0
 	reRem := mustRe(`^types\.UpdateValidator\(p0\[(.+)\]\.PubKey, 0, "secp256k1"\)$`)
 	reAdd := mustRe(`^types\.UpdateValidator\(p1\[(.+)\]\.PubKey, p1\[(.+)\]\.TotalPower, "secp256k1"\)$`)
-	for _, c := range CallsIn(fn) {
-		if hdr.Dominates(c.Block()) && reachesBlock(c.Block(), hdr) {
-			continue
-		}
-		s := w.canonCallI(c.Common())
+	classify := func(s string) {
 		if !strings.HasPrefix(s, "types.UpdateValidator(") {
-			continue
+			return
 		}
 		if reRem.MatchString(s) {
 			tRem++
@@ -1374,6 +1370,25 @@ func u2(w *World, r *Report) {
 		} else {
 			tRem, tAdd = -10, -10
 		}
+	}
+	for _, c := range CallsIn(fn) {
+		if hdr.Dominates(c.Block()) && reachesBlock(c.Block(), hdr) {
+			continue
+		}
+		// the emission may sit in a local closure called with the element
+		if cal := c.Common().StaticCallee(); cal != nil && cal.Parent() == fn && cal.Blocks != nil && len(cal.Params) == len(c.Common().Args) {
+			env := map[*ssa.Parameter]string{}
+			for j, p := range cal.Params {
+				env[p] = w.Canon(c.Common().Args[j])
+			}
+			w.inlineEnv = append(w.inlineEnv, env)
+			for _, ic := range CallsIn(cal) {
+				classify(w.canonCallI(ic.Common()))
+			}
+			w.inlineEnv = w.inlineEnv[:len(w.inlineEnv)-1]
+			continue
+		}
+		classify(w.canonCallI(c.Common()))
 	}
 	r.Check(tRem == 1 && tAdd == 1, "U-2", "merge:tails", "the remaining existing validators are removed and the remaining new ones added", "the tails of the merge do not remove all remaining existing validators and add all remaining new ones", fnSite(w, fn))
 	// both inputs sorted by address immediately before the call
